@@ -152,6 +152,13 @@ func (e *Engine) VerifyFunction(fn *ssa.Function, con *Contract) (v *FV) {
 		v.assume("true", t)
 		v.trusted["package-variable invariant (assumed at entry): "+gi.Text] = true
 	}
+	if sd, self, ok := v.sharedDecl(); ok && sd.Invariant != "" && !con.Unshared {
+		if t, err := v.sharedEnv(sd, self, st.snap, nil, "true").EvalBool(sd.Invariant); err == nil {
+			v.assume("true", t)
+		} else {
+			v.specError(Clause{File: sd.File, Line: sd.Line, Text: sd.Invariant}, err)
+		}
+	}
 	env := v.exprEnv(fr, st, "requires of "+con.Key)
 	for _, c := range con.Requires {
 		t, err := env.EvalBool(c.Text)
@@ -160,6 +167,13 @@ func (e *Engine) VerifyFunction(fn *ssa.Function, con *Contract) (v *FV) {
 			continue
 		}
 		v.assume("true", t)
+	}
+	for _, g := range con.GhostEntry {
+		genv := v.exprEnv(fr, st, "ghost_entry of "+con.Key)
+		genv.old = fr.oldSnap
+		if err := v.ghostAssign(genv, st, g.Text); err != nil {
+			v.specError(g, err)
+		}
 	}
 	preLen := len(v.script)
 	exits := v.execBody(fr, st)
@@ -245,7 +259,14 @@ func (v *FV) frameCheck(fr *Frame, st *State, con *Contract, vars map[string]TV,
 			return
 		}
 	}
-	allowed := v.allowedLocs(fr, st, con.Modifies, con, vars, pkg)
+	locs := append([]string(nil), con.Modifies...)
+	if sd, _, ok := v.sharedDecl(); ok && !con.Unshared {
+		// shared locations change under interference: they are outside the frame discipline
+		for _, l := range sd.Locations {
+			locs = append(locs, "self."+l)
+		}
+	}
+	allowed := v.allowedLocs(fr, st, locs, con, vars, pkg)
 	var names []string
 	for a := range v.arrays {
 		names = append(names, a)
